@@ -16,7 +16,12 @@
 (*             f, a, b     right-hand side: a construct over operands <<signal, offset>>, the       *)
 (*                         operand value being signal[offset : offset + n] for a target of n bits,  *)
 (*                         clipped at the signal's width (Python slicing)                           *)
-(*             c      enclosing If condition: <<>> none | <<s, o>> the bit s[o] | <<s>> the word s   *)
+(*             c      enclosing condition: <<>> none | <<s, o>> If(s[o]) | <<s>> If(s) (the word)    *)
+(*                    | <<i, kind, s, tests>>: the statement stands in branch i of a chain           *)
+(*                        kind 1: If(tests[1]) / Elif(tests[2]) / ... (a test <<>> is Else, last)    *)
+(*                        kind 2: Switch(signal s) with Case patterns tests[j], one entry per bit of  *)
+(*                                s, least significant first: 0, 1, or 2 for "-" (all 2: Default)     *)
+(*                      all branch records of a configuration share the chain and the module         *)
 (* The builder machine adds records in increasing vocabulary order, so TLC's reachable states are    *)
 (* exactly the subsets (up to MaxDrv records) of the vocabulary, each carrying the sets `exp` /      *)
 (* `expr` of outcome classes the real tool may answer with when the statements are written in the    *)
@@ -31,7 +36,7 @@ CONSTANTS
     MaxDrv,          \* maximal number of records in a configuration
     MaxRich,         \* maximal number of records that are not plain slices / primitive outputs
     UseExplicit,     \* TRUE: the initial states are the hand-written configurations `Explicit`
-    Mutant           \* "" | "conflict_per_signal" | "cycle_per_signal"   (seeded oracle errors)
+    Mutant           \* "" | "conflict_per_signal" | "cycle_per_signal" | "branch_own_test_only"   (seeded oracle errors)
 
 VARIABLES shape, ws, drv, last, exp, expr      \* exp / expr: allowed outcomes in program order drv / Reverse(drv)
 vars == <<shape, ws, drv, last, exp, expr>>
@@ -95,26 +100,42 @@ Rhs(w, r) ==
          [] r.f = "add" -> [i \in 1..(Max2(Len(A), Len(B)) + 1) |-> Elems(A) \cup Elems(B)]
          [] r.f \in {"eq", "lt"} -> [i \in 1..1 |-> Elems(A) \cup Elems(B)]
 
-CondBits(w, r) ==
-    CASE r.c = <<>> -> {}
-      [] Len(r.c) = 2 -> {<<r.c[1], r.c[2]>>}
-      [] Len(r.c) = 1 -> {<<r.c[1], j>> : j \in 0..(W(w, r.c[1]) - 1)}
+TestBits(w, t) ==
+    CASE t = <<>> -> {}
+      [] Len(t) = 2 -> {<<t[1], t[2]>>}
+      [] Len(t) = 1 -> {<<t[1], j>> : j \in 0..(W(w, t[1]) - 1)}
+(* Chains select the FIRST branch whose test succeeds: branch i is taken iff its own test succeeds and the  *)
+(* tests of branches 1..i-1 all fail, so what is assigned in branch i depends on every bit the tests 1..i   *)
+(* look at (a "-" position of a pattern looks at nothing; Else / Default look at nothing of their own).    *)
+(* Not specified, and over-approximated by the tool: whether an earlier branch also "depends" on later      *)
+(* tests, and on switched bits no pattern looks at -- these edges are in the full graph only.               *)
+IsBranch(r) == Len(r.c) = 4
+ChainTested(w, c, j) ==
+    IF c[2] = 1 THEN TestBits(w, c[4][j])
+    ELSE {<<c[3], b>> : b \in {x \in 0..(W(w, c[3]) - 1) : c[4][j][x + 1] # 2}}
+BranchBits(w, c, live) ==
+    IF live
+    THEN IF Mutant = "branch_own_test_only" THEN ChainTested(w, c, c[1])
+         ELSE UNION {ChainTested(w, c, j) : j \in 1..c[1]}
+    ELSE IF c[2] = 1 THEN UNION {ChainTested(w, c, j) : j \in 1..Len(c[4])}
+         ELSE {<<c[3], b>> : b \in 0..(W(w, c[3]) - 1)}
+CondBits(w, r, live) == IF IsBranch(r) THEN BranchBits(w, r.c, live) ELSE TestBits(w, r.c)
 
 (* edges <<from, to>> of one record: only combinational assignments create them (a register breaks the path); *)
 (* the condition feeds every bit assigned under it                                                           *)
-Edges(w, r) ==
+Edges(w, r, live) ==
     IF r.k # "comb" THEN {}
     ELSE LET R == Rhs(w, r)
              n == r.hi - r.lo IN
          UNION {{<<u, <<r.s, r.lo + i - 1>>>> : u \in R[i]} : i \in 1..Min2(n, Len(R))}
-           \cup {<<u, v>> : u \in CondBits(w, r), v \in DrivenBits(r)}
+           \cup {<<u, v>> : u \in CondBits(w, r, live), v \in DrivenBits(r)}
 
 (* Program order is sequence order.  "The last active assignment wins": the assignment d[i] is dead for bit b  *)
 (* when a later unconditional assignment of the same driver covers b.  Whether a dead assignment still counts  *)
 (* as a dependency is not specified (the tool drops some and keeps others), so both graphs are kept: the       *)
 (* live graph decides what MUST be rejected, the full graph what MAY be.                                        *)
 DeadFor(d, i, b) == \E j \in (i + 1)..Len(d) : d[j].k = d[i].k /\ d[j].m = d[i].m /\ d[j].c = <<>> /\ b \in DrivenBits(d[j])
-EdgesOf(w, d, i, live) == IF live THEN {e \in Edges(w, d[i]) : ~DeadFor(d, i, e[2])} ELSE Edges(w, d[i])
+EdgesOf(w, d, i, live) == IF live THEN {e \in Edges(w, d[i], TRUE) : ~DeadFor(d, i, e[2])} ELSE Edges(w, d[i], FALSE)
 
 DepGraphBits(w, d, live) == UNION {EdgesOf(w, d, i, live) : i \in 1..Len(d)}
 DepGraph(w, d, live) ==
@@ -145,8 +166,14 @@ IsOut(r) == r.k \in OutKinds
 Rich(r) == r.f \notin {"slice", "out"} \/ r.c # <<>>
 NRich(d) == Cardinality({i \in 1..Len(d) : Rich(d[i])})
 Overlap(r1, r2) == r1.s = r2.s /\ Max2(r1.lo, r2.lo) < Min2(r1.hi, r2.hi)
-(* outside the property statement, hence not generated: two primitive outputs on one bit *)
-Admissible(d) == \A i, j \in 1..Len(d) : i < j /\ IsOut(d[i]) /\ IsOut(d[j]) => ~Overlap(d[i], d[j])
+(* outside the property statement, hence not generated: two primitive outputs on one bit.  Branch records: *)
+(* one chain in one module per configuration; a branch statement is never overridden by an unconditional     *)
+(* statement of the same driver (so the place of the chain in the program does not matter)                  *)
+Admissible(d) ==
+    /\ \A i, j \in 1..Len(d) : i < j /\ IsOut(d[i]) /\ IsOut(d[j]) => ~Overlap(d[i], d[j])
+    /\ \A i, j \in 1..Len(d) : IsBranch(d[i]) /\ IsBranch(d[j]) =>
+            d[i].m = d[j].m /\ d[i].c[2] = d[j].c[2] /\ d[i].c[3] = d[j].c[3] /\ d[i].c[4] = d[j].c[4]
+    /\ \A i, j \in 1..Len(d) : IsBranch(d[i]) /\ d[j].c = <<>> /\ d[i].m = d[j].m /\ d[i].k = d[j].k => ~Overlap(d[i], d[j])
 
 VocSeq == [sh \in Shapes, w \in SigWs |-> SetToSeq(Vocab(sh, w))]
 (* the hierarchy table is handed to the harness (which builds the modules) instead of being repeated there *)
@@ -200,6 +227,16 @@ Explicit == {
     Cfg("top", <<2>>, <<Rec(1, "comb", 1, 1, 2, "const", <<>>, <<>>, <<1, 0>>)>>),
     Cfg("top", <<2>>, <<Rec(1, "comb", 1, 0, 1, "const", <<>>, <<>>, <<1, 0>>)>>),
     Cfg("top", <<2>>, <<Rec(1, "d1", 1, 0, 1, "const", <<>>, <<>>, <<1, 0>>)>>),
+    \* chains: a later branch depends on the earlier tests (first match wins)
+    Cfg("top", <<2, 1>>, <<Rec(1, "comb", 2, 0, 1, "const", <<>>, <<>>, <<1, 1, 0, <<<<1, 0>>, <<>>>>>>),
+                           Rec(1, "comb", 1, 0, 1, "const", <<>>, <<>>, <<2, 1, 0, <<<<1, 0>>, <<>>>>>>)>>),     \* If(a[0]): b=1  Else: a[0]=1
+    Cfg("top", <<2, 1>>, <<Rec(1, "comb", 2, 0, 1, "const", <<>>, <<>>, <<1, 2, 1, <<<<1, 2>>, <<2, 1>>>>>>),
+                           Rec(1, "comb", 1, 0, 1, "const", <<>>, <<>>, <<2, 2, 1, <<<<1, 2>>, <<2, 1>>>>>>)>>),  \* Case("-1"): b=1  Case("1-"): a[0]=1
+    Cfg("top", <<2, 1>>, <<Rec(1, "comb", 1, 1, 2, "const", <<>>, <<>>, <<2, 1, 0, <<<<1, 1>>, <<0, 0>>>>>>)>>),  \* If(a[1]): pass  Elif(x[0]): a[1]=1
+    Cfg("top", <<2, 1>>, <<Rec(1, "comb", 1, 1, 2, "const", <<>>, <<>>, <<1, 1, 0, <<<<1, 0>>, <<1, 1>>>>>>)>>),  \* If(a[0]): a[1]=1  Elif(a[1]): pass  (either answer)
+    Cfg("child", <<2, 1>>, <<Rec(2, "comb", 2, 0, 1, "const", <<>>, <<>>, <<2, 1, 0, <<<<1, 0>>, <<>>>>>>),
+                             Plain(1, "comb", 1, 0, 1, <<2, 0>>)>>),                                             \* ... closed through another signal and module
+    Cfg("top", <<2>>, <<Rec(1, "d1", 1, 0, 1, "const", <<>>, <<>>, <<2, 1, 0, <<<<1, 0>>, <<>>>>>>)>>),          \* registered: legal
     \* a conflict and a cycle together
     Cfg("child", <<2>>, <<Plain(1, "comb", 1, 0, 1, <<1, 0>>), Plain(2, "comb", 1, 0, 1, X0)>>)
 }
@@ -238,7 +275,17 @@ OutcomeShape ==
     /\ ("driver_conflict" \in expr <=> cf) /\ ("comb_cycle" \in expr <=> cy)       \* only liveness depends on the order
 (* program order matters only when one driver assigns a bit twice *)
 SameDriverOverlap(d) == \E i, j \in 1..Len(d) : i < j /\ d[i].k \in Domains /\ d[i].k = d[j].k /\ d[i].m = d[j].m /\ Overlap(d[i], d[j])
-OrderIrrelevant == ~SameDriverOverlap(drv) => exp = expr /\ CycleLive(ws, drv) = Cycle(ws, drv)
+HasBranch(d) == \E i \in 1..Len(d) : IsBranch(d[i])
+OrderIrrelevant ==
+    ~SameDriverOverlap(drv) => exp = expr /\ (~HasBranch(drv) => CycleLive(ws, drv) = Cycle(ws, drv))
+(* first-match priority: what a branch depends on grows with its position and contains its own test; the *)
+(* full graph contains the live one                                                                     *)
+ChainPriority ==
+    \A i \in 1..Len(drv) : IsBranch(drv[i]) =>
+        LET c == drv[i].c IN
+        /\ ChainTested(ws, c, c[1]) \subseteq BranchBits(ws, c, TRUE)
+        /\ \A j \in 1..c[1] : BranchBits(ws, <<j, c[2], c[3], c[4]>>, TRUE) \subseteq BranchBits(ws, c, TRUE)
+        /\ BranchBits(ws, c, TRUE) \subseteq BranchBits(ws, c, FALSE)
 
 (* conflicts are about overlapping non-empty bit ranges of different drivers, nothing else: bit-disjoint *)
 (* drivers never conflict, overlapping ones always do (interval arithmetic instead of per-bit sets)      *)
@@ -334,6 +381,25 @@ RichDeps(sh, w, ranges(_), second) ==
 (* one construct under test, closed (or not) by plain records *)
 VocabDepQ(sh, w) == PlainDeps(sh, w, DepRanges) \cup RichDeps(sh, w, DepRanges, {X0})
 VocabDepT(sh, w) == PlainDeps(sh, w, DepRanges) \cup RichDeps(sh, w, DepRanges, SrcsX(w))
+(* chains: statements in the branches of one If/Elif/Else or Switch/Case chain, plus plain records closing loops *)
+Els == <<>>
+ChainsQ(w) ==
+    {<<1, 0, <<<<1, 0>>, Els>>>>, <<1, 0, <<<<1, 0>>, X0>>>>, <<1, 0, <<<<1, 1>>, <<1, 0>>>>>>, <<1, 0, <<X0, <<1, 0>>>>>>,
+     <<1, 0, <<<<1>>, Els>>>>, <<1, 0, <<<<1, 0>>, X0, Els>>>>}
+      \cup (IF w[1] = 3 THEN {<<2, 1, <<<<1, 2, 2>>, <<2, 1, 2>>>>>>, <<2, 1, <<<<2, 1, 2>>, <<2, 2, 2>>>>>>,
+                              <<2, 1, <<<<0, 2, 1>>, <<2, 1, 2>>, <<2, 2, 2>>>>>>, <<2, 1, <<<<2, 1, 2>>, <<2, 0, 2>>>>>>}
+             ELSE {<<2, 1, <<<<1, 2>>, <<2, 1>>>>>>, <<2, 1, <<<<2, 1>>, <<2, 2>>>>>>})
+ChainsT(w) ==
+    ChainsQ(w)
+      \cup {<<1, 0, <<t1, t2>>>> : t1 \in Srcs(w) \cup {X0, <<1>>}, t2 \in Srcs(w) \cup {X0, <<1>>, Els}}
+      \cup {<<1, 0, <<t1, t2, Els>>>> : t1 \in Srcs(w), t2 \in Srcs(w) \cup {X0}}
+BranchRecs(sh, w, chains, kinds) ==
+    {r \in {Rec(NMods(sh), k, t[1], t[2], t[3], "const", <<>>, <<>>, <<i, ch[1], ch[2], ch[3]>>) :
+                k \in kinds, t \in Targets(w, DepRanges), ch \in chains, i \in 1..3} : r.c[1] <= Len(r.c[4])}
+ClosingRecs(sh, w) == {Plain(NMods(sh), "comb", t[1], t[2], t[3], a) : t \in Targets(w, DepRanges), a \in SrcsX(w)}
+VocabBranchQ(sh, w) == BranchRecs(sh, w, ChainsQ(w), {"comb"}) \cup ClosingRecs(sh, w)
+VocabBranchT(sh, w) == BranchRecs(sh, w, ChainsT(w), {"comb", "d1"}) \cup ClosingRecs(sh, w)
+
 (* longer paths through plain bit-to-bit records *)
 VocabChain(sh, w) == PlainDeps(sh, w, BitRanges)
 =============================================================================
